@@ -331,6 +331,21 @@ func prepare(c *scase, k, ko kind, b *builder) *call {
 	case "VdotM":
 		r, x, m := b.vec(k, d[0], 0), b.vec(ko, d[1], 30), b.mat(ko, d[2], d[3], 10)
 		return &call{r, func() (interface{}, error) { return r.VdotM(x, m), nil }}
+	case "MdotV.alias.Self", "MdotV.alias.Slice", "MdotV.alias.ConstSlice",
+		"VdotM.alias.Self", "VdotM.alias.Slice", "VdotM.alias.ConstSlice":
+		n := d[0]
+		r, m := b.vec(k, n, 0), b.mat(ko, n, n, 10)
+		var x ConstVector = r
+		switch {
+		case strings.HasSuffix(c.Op, ".ConstSlice"):
+			x = r.ConstSlice(0, n)
+		case strings.HasSuffix(c.Op, ".Slice"):
+			x = r.Slice(0, n)
+		}
+		if strings.HasPrefix(c.Op, "MdotV") {
+			return &call{nil, func() (interface{}, error) { return r.MdotV(m, x), nil }}
+		}
+		return &call{nil, func() (interface{}, error) { return r.VdotM(x, m), nil }}
 	case "VAt":
 		v := b.vec(k, d[0], 0)
 		return &call{v, func() (interface{}, error) { return v.At(a[0]), nil }}
@@ -1124,6 +1139,17 @@ func eqInts(a, b []int) bool {
 	}
 	return true
 }
+func eqVals(a []float64, b []int) bool {
+	if len(a) != len(b) {
+		return false
+	}
+	for i := range a {
+		if a[i] != float64(b[i]) {
+			return false
+		}
+	}
+	return true
+}
 func eqFloats(a, b []float64) bool {
 	if len(a) != len(b) {
 		return false
@@ -1297,10 +1323,15 @@ func runCase(c *scase, idx int, kinds []kind) *caseResult {
 					info["parent_modified_on_reject"]++
 				}
 			case "ok", "any":
-				if accepted && shapeOK && len(c.Val) == 1 && (len(o.Res) != 1 || o.Res[0] != float64(c.Val[0])) {
-					// an admissible read that does not see the value the contract prescribes
-					// (stale storage of an earlier, larger allocation)
-					report(c, in.k, in.ko, mode, "stale_value", o, nil)
+				if accepted && shapeOK && len(c.Val) > 0 && mode == "plain" && !eqVals(o.Res, c.Val) {
+					// a call that returned with another value than the contract prescribes:
+					// a read of stale storage (RShrink), a product computed from operands
+					// the call itself had overwritten (aliasing)
+					what := "wrong_value"
+					if strings.HasPrefix(c.Op, "RShrink.") {
+						what = "stale_value"
+					}
+					report(c, in.k, in.ko, mode, what, o, nil)
 				} else if accepted {
 					if !shapeOK {
 						if mode == "plain" {
